@@ -29,7 +29,7 @@ REG = {
                 "neighbours, the subnormal range, the largest finite value and the overflow threshold, ints up to 10**400 incl. ints that are not doubles"
                 + _RULE_LOOKALIKE + " (steps: serialize plain / relaxed / with a shape violation, deserialize a reference encoding whose value is known, "
                 "deserialize arbitrary bytes); non-trivial = every case; distinct = distinct (type, value, flags)",
-        "technique": "Lean 4 theorems over an executable model of the codec (mutual structural induction over all types and values); the bit-level writer / reader classes are re-translated from the working tree on every run and proved equal to the two-path buffer model (py2lean_serdes: Gen.Serdes, Bridge.Serdes, Props.C06Gen) + "
+        "technique": "Lean 4 theorems over an executable model of the codec (mutual structural induction over all types and values); the bit-level writer / reader classes are re-translated from the working tree on every run and proved equal to the two-path buffer model (py2lean_serdes: Gen.Serdes, Bridge.Serdes) and the serializer functions for float-free types in strict mode likewise (py2lean_codec: Gen.Codec, Bridge.CodecSer, Props.C06Gen: generated encoder = model encoder, round trip over generated encoder and decoder) + "
                      "differential correspondence with pydsdl.serialize/deserialize + independent reference encoder and exact-rational float oracle",
         "level_text": "For the modelled codec it is proved in Lean 4, for all well-formed types, all valid values, every aligned offset and any trailing "
                       "data, that decoding an encoding returns the value and stops at its end; that the encoding's bit length lies in a length set "
@@ -71,6 +71,23 @@ REG = {
             "lean/PyLib.lean (meaning of divmod, shifts, masks, `x & ~m`, int.to_bytes / from_bytes, bytearray slice / item assignment, extend / append); "
             "what remains by correspondence only is the call order of Model/WireIO.lean (its results are proved equal to the validated Wire.enc / Wire.dec; a trace "
             "comparison is not implemented) and that write_bits is only called with non-negative values (the callers mask them)",
+            "the SERIALIZER's call order and input handling are tied by TRANSLATION as well (float-free types, strict mode): serialize, "
+            "_serialize_primitive, _serialize_array, _serialize_element, _serialize_composite, _serialize_field_value and _default_value are "
+            "translated on every run (tools/py2lean_codec.py -> Gen/Codec.lean: Python values inspected dynamically, Python ints as Int incl. "
+            "`&` on negative ints, the union search loop with break, _DEFAULT_SENTINEL, the temporary _BitWriter of delimited types) and "
+            "Bridge/CodecSer.lean proves by recursion over the schema object graph that for every object graph as pydsdl's constructors build "
+            "it (okT) WITHOUT FLOAT TYPES and with pairwise distinct field names (serOk), every writer state whose position is not behind its "
+            "buffer and every plain Python value (no float objects; str = valid UTF-8) the generated code writes exactly what Wire.coerce "
+            "followed by WireIO.encW writes, or raises the exception of the model's error class (gen_serialize_primitive, gen_ser_fixedArray, "
+            "gen_ser_varArray, gen_ser_structure, gen_ser_union, gen_ser_delimited, sgood, gen_serialize; gen_default_value, defCo for "
+            "_default_value); in particular write_bits is proved to be called with non-negative values only. Props/C06Gen.lean: "
+            "C06.gen_sat_unsigned / gen_trunc_unsigned / gen_sat_signed (saturation and truncation formulas over the generated code), "
+            "C06.gen_default_value, C06.gen_serialize_is_model (= Wire.serialize: same bytes or same error class) and C06.gen_roundtrip: the bytes "
+            "the GENERATED serialize returns, followed by anything, are decoded by the GENERATED deserialize to the Python value of the canonical "
+            "value the input denotes. Not covered by the serializer tie: float fields (the conversion region of _serialize_primitive - float(), "
+            "saturation, struct.pack with OverflowError handling - is outside the translated fragment and appears as an uninterpreted function "
+            "keyed by a hash of its text; float objects given to bool / int fields likewise), relaxed=True (_normalize_relaxed_value is an "
+            "uninterpreted external function); for those the hand-written model and the wire / floatconv correspondences remain the tie",
         ],
         "assumptions": [_MODEL],
     },
@@ -86,7 +103,7 @@ REG = {
                 "byte, utf8, uint8 and other arrays, at the top level and nested as field, array element, union variant, nested delimited); "
                 "every byte string also with 2-4 zero / junk suffixes" + _RULE_LOOKALIKE.replace("about 9%", "about 1%") + " (steps: deserialize); "
                 "non-trivial = non-empty byte string; distinct = distinct (type, bytes, flags)",
-        "technique": "Lean 4 theorems over the executable decoder model; _BitReader is re-translated from the working tree on every run and proved equal to the reader model (py2lean_serdes: Gen.Serdes, Bridge.Serdes, Props.C07Gen) + differential correspondence with pydsdl.deserialize + metamorphic oracle on the real library",
+        "technique": "Lean 4 theorems over the executable decoder model; _BitReader is re-translated from the working tree on every run and proved equal to the reader model (py2lean_serdes: Gen.Serdes, Bridge.Serdes) and so is the whole deserializer (py2lean_codec: Gen.Codec, Bridge.Codec, Props.C07Gen: generated deserialize = model, totality, zero extension, truncation) + differential correspondence with pydsdl.deserialize + metamorphic oracle on the real library",
         "level_text": "For the modelled decoder it is proved in Lean 4, for all types and all bit strings: totality with only the four decode error classes; "
                       "every returned value is valid and a fixed point of encode/decode; implicit truncation; stability of every decoding step under zero "
                       "extension of the window (including bounded sub-readers) and its converse up to DelimiterHeaderError; rejection of over-capacity lengths, out-of-range tags and oversized headers. "
@@ -105,6 +122,23 @@ REG = {
             "bounded_subreader, remaining_bits never raise and equal BitIO.readBits / Rd.alignTo / Rd.sub / Rd.remaining (C07.gen_read_bits_is_model, "
             "C07.gen_read_bits_window, C07.gen_reader_history, C07.gen_sub_reader_window, C07.gen_remaining_bits, C07.gen_reader_align_to); trusted there: the "
             "translator and lean/PyLib.lean",
+            "the CALL ORDER of the decoder is no longer by correspondence only: the functions deserialize, _deserialize_primitive, _deserialize_array, "
+            "_deserialize_element, _deserialize_composite, _deserialize_field_value are TRANSLATED on every run (tools/py2lean_codec.py -> Gen/Codec.lean: schema "
+            "objects as Py.Obj with dynamic attribute access and isinstance along the class hierarchy, Python values as Py.Value, the _BitReader state threaded "
+            "explicitly incl. the bounded sub-reader, one unit of fuel per Python frame, every raise with its exception class, messages evaluated for their "
+            "effects) and Bridge/Codec.lean proves, by recursion over the schema object graph, that for every object graph as pydsdl's constructors build it "
+            "(okT: length / tag / delimiter-header field types of the computed widths, byte-aligned composites, padding fields exactly on void types, a delimited "
+            "type wraps a structure or union) with a well-formed descriptor, every reader state whose data are bytes and whose position is not before its start, "
+            "and fuel >= nesting depth, the generated code returns exactly what Model/WireIO.lean's decR / deserializeR return - the Python value of the model's "
+            "value (dict by field name without padding, one-entry dict for unions, str / bytes / list for arrays) and the same reader position, or the exception "
+            "of the model's error class (gen_primitive, gen_fixedArray, gen_varArray, gen_structure, gen_union, gen_delimited, good, gen_deserialize); "
+            "Props/C07Gen.lean restates C07 over the generated deserialize: C07.gen_deserialize_is_model (= Wire.deserialize), C07.gen_deserialize_total (a value "
+            "or ArrayLengthError / UnionTagError / DelimiterHeaderError / ValueError - never IndexError, KeyError, TypeError, AttributeError, struct.error, "
+            "AssertionError, RecursionError, which the generated code could raise), C07.gen_zero_ext, C07.gen_zero_ext_conv, C07.gen_truncation, C07.gen_fixed_point; "
+            "hypothesis depth <= 1000 (CPython's recursion limit: deeper types raise RecursionError in Python as well); trusted there: the translator, "
+            "lean/PyLib.lean and lean/PyLib/Codec.lean (meaning of attribute access / isinstance on schema objects, dict item assignment, bytes(list), "
+            "bytes.decode('utf-8') = Wire.validUtf8, struct.unpack as bit pattern); what remains by correspondence only on the decoder side: that real schema "
+            "objects satisfy okT with the descriptor the harness sends (layout attributes: C02 / Gen.Layout) and the float <-> bit pattern conversion of struct",
         ],
         "assumptions": [_MODEL],
     },
@@ -112,7 +146,7 @@ REG = {
 
 # wire half of C14; the coordinator merges this into the C14 entry (module list, suite list, partial notes)
 C14_WIRE = {
-    "module": ["Props.C14Wire", "Props.C14WireGeneral"],
+    "module": ["Props.C14Wire", "Props.C14WireGeneral", "Props.C14Gen"],
     "suites": [("wire", (6000, 60000))],
     "rule": "pairs (D, D') of delimited structures with a common extent where one field list (0-4 random fields incl. nested composites, arrays, "
             "padding) is a proper prefix of the other (1-3 more fields), nested 1-3 levels deep as structure field (fields before and after), "
@@ -128,6 +162,11 @@ C14_WIRE = {
         "structures at any positions at once, revised members inside revised structures included, and to unions gaining trailing variants "
         "(relation Wire.Evolves writer reader, adapted value Wire.adapt); not covered: a union LOSING variants (an old reader rejects an unknown tag "
         "with UnionTagError - C07.rejects_tag - never mis-decodes), and changes of array capacity or primitive types (not allowed by the Specification)",
+        "the READER of the wire half is also the code generated from _serdes.py on every run (Gen/Codec.lean, Bridge/Codec.lean): C14.gen_reads_appended / "
+        "C14.gen_reads_removed (Props/C14Gen.lean) state C14.wire_appended / wire_removed for the generated deserialize applied to two delimited structure "
+        "objects whose field lists are fs and fs ++ gs - the new reader returns the old reader's dict extended by the added fields with default values, the old "
+        "reader returns the dict of the fields it knows - at the top level with delimiter header; nested positions go through C14.wire_general on the model "
+        "plus C07.gen_deserialize_is_model; the writer in these two theorems is the model's encoder Wire.enc",
     ],
     "assumptions": [_MODEL],
     "technique": "Lean 4 theorems over the executable codec model + differential correspondence with pydsdl.serialize/deserialize across revisions + structural adapt oracle",
